@@ -130,6 +130,11 @@ def finish(res, level="model_checking"):
         "notes": res.notes,
     }
     cov.update(res.extra)
+    drawn = [c["name"] for c in cov.get("configs", []) if isinstance(c, dict) and (c.get("big") or str(c.get("name", "")).startswith(("ops-sim", "ops-wide")))]
+    if drawn:
+        # part of the coverage is sampled: say so next to the `exhaustive` flag
+        cov["exhaustive_scope"] = ("exhaustive within the bounds of the enumerating configurations; the configurations %s are drawn samples beyond those "
+                                   "bounds (large random instances / simulated histories, fixed seed) and are not exhaustive" % ", ".join(drawn))
     ev = {
         "property_id": res.prop,
         "tier": res.tier,
